@@ -17,7 +17,7 @@ SPEC_FILES = ["Ring.tla", "QSim.tla", "QRuntime.tla", "MCQRuntime.tla"]
 def exhaustive(tier):
     maxlen, maxq = (7, 3) if tier == "quick" else (8, 4)
     key = vlib.sha(vlib.spec_hash(*SPEC_FILES), "ex", maxlen, maxq)
-    d = os.path.join(vlib.BUILD, "tlc", "qrt-" + key)
+    d = vlib.cache_dir("qrt", key)
     meta = os.path.join(d, "meta.json")
     if os.path.exists(meta):
         m = json.load(open(meta))
@@ -40,7 +40,7 @@ def exhaustive(tier):
 def generate(seed, num, maxq=5, maxlen=14):
     """TLC -simulate over GenSpec: `num` finished behaviours, each checked against AllInv."""
     key = vlib.sha(vlib.spec_hash(*SPEC_FILES), "gen", seed, num, maxq, maxlen)
-    d = os.path.join(vlib.BUILD, "tlc", "qrtgen-" + key)
+    d = vlib.cache_dir("qrtgen", key)
     dump = os.path.join(d, "beh.ndjson")
     if os.path.exists(dump):
         return [json.loads(l) for l in open(dump)], True
